@@ -169,7 +169,7 @@ PROPS = {
                 "QEC-like circuits of the cdem area; distinct = distinct circuit texts",
         "trusted_base": [],
         "partial": ["revtrack_shift_equivariant (the hypothesis of fold_sound for the concrete tracker) is not proved; the concrete implementations are compared with unrolling",
-                    "the tree operations (simplified, size, empty, try_factorize, operator[]) are modelled (Model/RefTree) and decompress_simplified is proved; that try_factorize keeps the sample and that the tortoise-hare construction builds a tree of the unrolled sample are validated by correspondence (areas reftree, fold)"],
+                    "the tree operations (simplified, size, empty, try_factorize, operator[]) are modelled (Model/RefTree) and decompress_simplified and decompress_tryFactorize are proved; that the tortoise-hare construction builds a tree of the unrolled sample is validated by correspondence (areas reftree, fold)"],
         "assumptions": [],
     },
     "C08": {
